@@ -287,6 +287,43 @@ func firstUnappliedSig(c fw.Case, outs []string, msg string) bool {
 	return false
 }
 
+// lostProposalEventSig (KF-C09-lost-proposal-event): a proposal of the stranded transaction exists, none of its
+// phases was ever opened, and no invocation of the proposal controller for it appears in any trace of the history:
+// the event of its creation never reached the proposal controller (the proposal store registers its event stream in
+// every Watch call and the atomix map acknowledges the registration after the first of its partitions:
+// KF-C15-atomix-events-partial-registration), and nothing else ever enqueues a proposal that has not started.
+func lostProposalEventSig(c fw.Case, outs []string, msg string) bool {
+	st := lastAuto(c, outs)
+	m := strandedRe.FindStringSubmatch(msg)
+	if st == nil || m == nil {
+		return false
+	}
+	idx := atoi(m[1])
+	for _, p := range st.Prop {
+		if p.Index != idx || p.Init != "-" || p.Validate != "-" || p.Commit != "-" || p.Apply != "-" || p.Abort != "-" {
+			continue
+		}
+		actor := fmt.Sprintf("prop:%d:%d", p.Target, p.Index)
+		seen := false
+		for _, o := range outs {
+			if i := strings.Index(o, "trace="); i >= 0 {
+				tr := strings.Fields(o[i+6:])
+				if len(tr) > 0 {
+					for _, a := range strings.Split(tr[0], ",") {
+						if a == actor {
+							seen = true
+						}
+					}
+				}
+			}
+		}
+		if !seen {
+			return true
+		}
+	}
+	return false
+}
+
 // serializableWaitSig (KF-C09-serializable-wait): the stranded transaction waits for a SERIALIZABLE
 // predecessor on one of its targets to be validated / applied, and that predecessor has got there.
 func serializableWaitSig(c fw.Case, outs []string, msg string) bool {
